@@ -4,6 +4,8 @@
   smoke        imports, one simulated run per engine, evidence schema reachable (used by setup_cmd)
   determinism  same seeds twice, different worker counts, fresh interpreter, other PYTHONHASHSEED
   sensitivity  scratch-copy mutants must be flagged, behaviour-preserving rewrites must pass
+  seeded       regression over /verif/seeded/<id>/patch.diff (independent breaking changes): still flagged
+  preserving   regression over /verif/preserving/<id>/patch.diff (independent preserving changes): still quiet
 """
 
 from __future__ import annotations
